@@ -1,1 +1,345 @@
+//! Generic helpers the generated grammar modules call: run one rule of a typed parser through
+//! any entry point and input form and turn everything observable into plain data.
 
+use pest_typed::iterators::{Pair, PairTree, Pairs, Token};
+use pest_typed::tracker::Tracker;
+use pest_typed::{AsInput, Input, ParsableTypedNode, Position, RuleType, Span, Stack, TypedParser};
+use std::collections::hash_map::DefaultHasher;
+use std::fmt::Debug;
+use std::hash::{Hash, Hasher};
+use std::panic::{catch_unwind, AssertUnwindSafe};
+pub use verif_core::api::*;
+pub use verif_core::interp::Tok;
+
+pub fn panic_msg(e: Box<dyn std::any::Any + Send>) -> String {
+    if let Some(s) = e.downcast_ref::<&str>() {
+        s.to_string()
+    } else if let Some(s) = e.downcast_ref::<String>() {
+        s.clone()
+    } else {
+        "panic".to_string()
+    }
+}
+
+pub fn tok_of<R: RuleType>(t: &Token<'_, R>) -> Tok {
+    Tok { rule: format!("{:?}", t.rule), start: t.span.start(), end: t.span.end(), kids: t.children.iter().map(tok_of).collect() }
+}
+
+fn thin_of<R: RuleType>(t: &pest_typed::iterators::ThinToken<R>) -> Tok {
+    Tok { rule: format!("{:?}", t.rule), start: t.start, end: t.end, kids: t.children.iter().map(thin_of).collect() }
+}
+
+fn spans_valid<R: RuleType>(ts: &[Token<'_, R>], host: &str, lo: usize, hi: usize) -> bool {
+    ts.iter().all(|t| {
+        let (a, b) = (t.span.start(), t.span.end());
+        let in_range = lo <= a && a <= b && b <= hi && host.is_char_boundary(a) && host.is_char_boundary(b);
+        // as_str() must be takable and be the slice of the host
+        let text_ok = in_range && t.span.as_str().len() == b - a && std::ptr::eq(t.span.get_input(), host);
+        text_ok && spans_valid(&t.children, host, a, b)
+    })
+}
+
+fn hash_of<T: Hash>(t: &T) -> u64 {
+    let mut h = DefaultHasher::new();
+    t.hash(&mut h);
+    h.finish()
+}
+
+fn err_obs<R: RuleType>(e: &pest_typed::error::Error<R>) -> ErrObs {
+    use pest_typed::error::{InputLocation, LineColLocation};
+    let pos = match e.location {
+        InputLocation::Pos(p) => p,
+        InputLocation::Span((a, _)) => a,
+    };
+    let line_col = match e.line_col {
+        LineColLocation::Pos(lc) => lc,
+        LineColLocation::Span(lc, _) => lc,
+    };
+    let (display, display_panicked) = match catch_unwind(AssertUnwindSafe(|| format!("{}", e))) {
+        Ok(s) => (s, false),
+        Err(p) => (panic_msg(p), true),
+    };
+    ErrObs { display, pos, line_col, debug: format!("{:?}", e), display_panicked }
+}
+
+fn track_obs<R: RuleType>(t: Tracker<'_, R>) -> TrackObs {
+    let (pos, attempts) = t.finish();
+    TrackObs {
+        pos: pos.pos(),
+        attempts: attempts
+            .into_iter()
+            .map(|(upper, (pos_rules, neg_rules, special))| {
+                (
+                    upper.map(|r| format!("{:?}", r)),
+                    pos_rules.iter().map(|r| format!("{:?}", r)).collect(),
+                    neg_rules.iter().map(|r| format!("{:?}", r)).collect(),
+                    special.iter().map(|s| s.to_string()).collect(),
+                )
+            })
+            .collect(),
+    }
+}
+
+fn stack_obs(s: &Stack<Span<'_>>) -> Vec<(usize, usize)> {
+    s[0..s.len()].iter().map(|sp| (sp.start(), sp.end())).collect()
+}
+
+pub trait Node<'i, R: RuleType>: ParsableTypedNode<'i, R> + Pairs<'i, R> + Debug + Hash + Clone + PartialEq {}
+impl<'i, R: RuleType, T: ParsableTypedNode<'i, R> + Pairs<'i, R> + Debug + Hash + Clone + PartialEq> Node<'i, R> for T {}
+
+fn fill_tree<'i, R: RuleType, T: Node<'i, R>>(o: &mut Obs, t: &T, deep: bool, host: &'i str, lo: usize, hi: usize) {
+    let toks = t.self_or_children();
+    o.spans_ok = Some(spans_valid(&toks, host, lo, hi));
+    o.tokens = Some(toks.iter().map(tok_of).collect());
+    if deep {
+        let d = format!("{:?}", t);
+        let h = hash_of(t);
+        let c = t.clone();
+        o.clone_ok = Some(c == *t && !(c != *t) && hash_of(&c) == h && format!("{:?}", c) == d);
+        o.debug = Some(d);
+        o.hash = Some(h);
+    }
+}
+
+/// All entry points for one input form.
+fn run_entry<'i, R: RuleType, T: Node<'i, R>, A: AsInput<'i> + Copy>(entry: Entry, deep: bool, input: A, host: &'i str, lo: usize, hi: usize) -> Obs {
+    let mut o = Obs::default();
+    match entry {
+        Entry::ParsePartial => match T::try_parse_partial(input) {
+            Ok((rest, t)) => {
+                o.ok = true;
+                o.end = Some(rest.byte_offset());
+                fill_tree(&mut o, &t, deep, host, lo, hi);
+            }
+            Err(e) => o.err = Some(err_obs(&e)),
+        },
+        Entry::CheckPartial => match T::try_check_partial(input) {
+            Ok(rest) => {
+                o.ok = true;
+                o.end = Some(rest.byte_offset());
+            }
+            Err(e) => o.err = Some(err_obs(&e)),
+        },
+        Entry::ParseFull => match T::try_parse(input) {
+            Ok(t) => {
+                o.ok = true;
+                fill_tree(&mut o, &t, deep, host, lo, hi);
+            }
+            Err(e) => o.err = Some(err_obs(&e)),
+        },
+        Entry::CheckFull => match T::try_check(input) {
+            Ok(()) => o.ok = true,
+            Err(e) => o.err = Some(err_obs(&e)),
+        },
+        Entry::ParsePartialWith => {
+            let mut stack = Stack::new();
+            let inp = input.as_input();
+            let mut tracker = Tracker::new(inp);
+            match T::try_parse_partial_with(inp, &mut stack, &mut tracker) {
+                Some((rest, t)) => {
+                    o.ok = true;
+                    o.end = Some(rest.byte_offset());
+                    fill_tree(&mut o, &t, deep, host, lo, hi);
+                }
+                None => {}
+            }
+            o.stack = Some(stack_obs(&stack));
+            o.tracker = Some(track_obs(tracker));
+        }
+        Entry::CheckPartialWith => {
+            let mut stack = Stack::new();
+            let inp = input.as_input();
+            let mut tracker = Tracker::new(inp);
+            if let Some(rest) = T::try_check_partial_with(inp, &mut stack, &mut tracker) {
+                o.ok = true;
+                o.end = Some(rest.byte_offset());
+            }
+            o.stack = Some(stack_obs(&stack));
+            o.tracker = Some(track_obs(tracker));
+        }
+        Entry::ParseFullWith => {
+            let mut stack = Stack::new();
+            let inp = input.as_input();
+            let mut tracker = Tracker::new(inp);
+            if let Some(t) = T::try_parse_with(inp, &mut stack, &mut tracker) {
+                o.ok = true;
+                fill_tree(&mut o, &t, deep, host, lo, hi);
+            }
+            o.stack = Some(stack_obs(&stack));
+            o.tracker = Some(track_obs(tracker));
+        }
+        Entry::CheckFullWith => {
+            let mut stack = Stack::new();
+            let inp = input.as_input();
+            let mut tracker = Tracker::new(inp);
+            o.ok = T::try_check_with(inp, &mut stack, &mut tracker);
+            o.stack = Some(stack_obs(&stack));
+            o.tracker = Some(track_obs(tracker));
+        }
+        Entry::ParserParse | Entry::ParserCheck => unreachable!(),
+    }
+    o
+}
+
+fn guarded(f: impl FnOnce() -> Obs) -> Obs {
+    match catch_unwind(AssertUnwindSafe(f)) {
+        Ok(o) => o,
+        Err(e) => Obs { panicked: Some(panic_msg(e)), ..Obs::default() },
+    }
+}
+
+fn run_parser_trait<'i, R: RuleType, P: TypedParser<R>, T: Node<'i, R>>(req: Req, host: &'i str) -> Obs {
+    let mut o = Obs::default();
+    match req.entry {
+        Entry::ParserParse => match P::try_parse::<T>(host) {
+            Ok(t) => {
+                o.ok = true;
+                fill_tree(&mut o, &t, req.deep, host, 0, host.len());
+            }
+            Err(e) => o.err = Some(err_obs(&e)),
+        },
+        _ => match P::try_check::<T>(host) {
+            Ok(()) => o.ok = true,
+            Err(e) => o.err = Some(err_obs(&e)),
+        },
+    }
+    o
+}
+
+/// Typed side, `&str` form only (keeps monomorphisation small for most of the corpus).
+pub fn run_typed_str<'i, R: RuleType, P: TypedParser<R>, T: Node<'i, R>>(req: Req, host: &'i str) -> Obs {
+    guarded(|| match (req.entry, req.form) {
+        (Entry::ParserParse | Entry::ParserCheck, Form::Str) => run_parser_trait::<R, P, T>(req, host),
+        (_, Form::Str) => run_entry::<R, T, &'i str>(req.entry, req.deep, host, host, 0, host.len()),
+        _ => Obs { panicked: Some("harness: input form not compiled for this grammar".into()), ..Obs::default() },
+    })
+}
+
+/// Typed side with all three input forms.
+pub fn run_typed_forms<'i, R: RuleType, P: TypedParser<R>, T: Node<'i, R>>(req: Req, host: &'i str) -> Obs {
+    guarded(|| match (req.entry, req.form) {
+        (Entry::ParserParse | Entry::ParserCheck, _) => run_parser_trait::<R, P, T>(req, host),
+        (_, Form::Str) => run_entry::<R, T, &'i str>(req.entry, req.deep, host, host, 0, host.len()),
+        (_, Form::Pos(a)) => match Position::new(host, a) {
+            Some(p) => run_entry::<R, T, Position<'i>>(req.entry, req.deep, p, host, a, host.len()),
+            None => Obs { panicked: Some("harness: invalid Position".into()), ..Obs::default() },
+        },
+        (_, Form::Span(a, b)) => match Span::new(host, a, b) {
+            Some(s) => run_entry::<R, T, Span<'i>>(req.entry, req.deep, s, host, a, b),
+            None => Obs { panicked: Some("harness: invalid Span".into()), ..Obs::default() },
+        },
+    })
+}
+
+fn parse_form<'i, R: RuleType, T: Node<'i, R>>(host: &'i str, f: Form, forms: bool) -> Option<Option<T>> {
+    Some(match f {
+        Form::Str => T::try_parse_partial(host).ok().map(|(_, t)| t),
+        Form::Pos(a) if forms => T::try_parse_partial(Position::new(host, a)?).ok().map(|(_, t)| t),
+        Form::Span(a, b) if forms => T::try_parse_partial(Span::new(host, a, b)?).ok().map(|(_, t)| t),
+        _ => return None,
+    })
+}
+
+fn pair_obs<'i, R: RuleType, T: Node<'i, R>>(host: &'i str, a: Form, b: Form, forms: bool) -> PairObs {
+    match catch_unwind(AssertUnwindSafe(|| {
+        let mut o = PairObs::default();
+        let (x, y) = match (parse_form::<R, T>(host, a, forms), parse_form::<R, T>(host, b, forms)) {
+            (Some(x), Some(y)) => (x, y),
+            _ => {
+                o.panicked = Some("harness: input form not available".into());
+                return o;
+            }
+        };
+        if let (Some(x), Some(y)) = (x, y) {
+            o.both_ok = true;
+            o.eq = x == y;
+            o.ne = x != y;
+            o.debug_a = format!("{:?}", x);
+            o.debug_b = format!("{:?}", y);
+            o.debug_equal = o.debug_a == o.debug_b;
+            o.hash_equal = hash_of(&x) == hash_of(&y);
+        }
+        o
+    })) {
+        Ok(o) => o,
+        Err(e) => PairObs { panicked: Some(panic_msg(e)), ..PairObs::default() },
+    }
+}
+
+pub fn run_pair_str<'i, R: RuleType, T: Node<'i, R>>(host: &'i str, a: Form, b: Form) -> PairObs {
+    pair_obs::<R, T>(host, a, b, false)
+}
+pub fn run_pair_forms<'i, R: RuleType, T: Node<'i, R>>(host: &'i str, a: Form, b: Form) -> PairObs {
+    pair_obs::<R, T>(host, a, b, true)
+}
+
+/// Traversal helpers of a non-silent rule.
+pub fn run_tree<'i, R: RuleType, T: Node<'i, R> + PairTree<'i, R>>(host: &'i str) -> TreeObs {
+    match catch_unwind(AssertUnwindSafe(|| {
+        let mut o = TreeObs::default();
+        if let Ok((_, t)) = T::try_parse_partial(host) {
+            o.ok = true;
+            o.token = Some(tok_of(&t.as_token()));
+            o.thin = Some(thin_of(&t.as_thin_token()));
+            o.children = Pair::children(&t).iter().map(tok_of).collect();
+            let _ = t.iterate_pre_order(|tok, depth| -> Result<(), ()> {
+                o.pre_order.push((format!("{:?}", tok.rule), tok.span.start(), tok.span.end(), depth));
+                o.texts.push(tok.span.as_str().to_string());
+                Ok(())
+            });
+            let _ = t.iterate_level_order(|tok, k| -> Result<(), ()> {
+                o.level_order.push((format!("{:?}", tok.rule), tok.span.start(), tok.span.end(), k));
+                Ok(())
+            });
+            o.tree_text = t.format_as_tree().ok();
+            let mut buf = String::new();
+            if t.write_tree_to(&mut buf).is_ok() {
+                o.tree_text2 = Some(buf);
+            }
+        }
+        o
+    })) {
+        Ok(o) => o,
+        Err(e) => TreeObs { panicked: Some(panic_msg(e)), ..TreeObs::default() },
+    }
+}
+
+// ---------------------------------------------------------------------------------------
+// pest side
+
+fn pest_tok<R: pest::RuleType>(p: pest::iterators::Pair<'_, R>) -> Tok {
+    let sp = p.as_span();
+    Tok { rule: format!("{:?}", p.as_rule()), start: sp.start(), end: sp.end(), kids: p.into_inner().map(pest_tok).collect() }
+}
+
+/// Run the pest_derive parser.  `wrapped`: the rule given is the harness' wrapper
+/// `__w_x = { x }` around a silent rule x; its children are reported, its end is the offset.
+pub fn run_pest<R: pest::RuleType, P: pest::Parser<R>>(rule: R, input: &str, wrapped: bool) -> PestObs {
+    match catch_unwind(AssertUnwindSafe(|| {
+        let mut o = PestObs::default();
+        match P::parse(rule, input) {
+            Ok(pairs) => {
+                o.ok = true;
+                let toks: Vec<Tok> = pairs.map(pest_tok).collect();
+                if wrapped {
+                    let w = toks.into_iter().next().expect("wrapper pair");
+                    o.end = Some(w.end);
+                    o.tokens = w.kids;
+                } else {
+                    o.end = toks.first().map(|t| t.end);
+                    o.tokens = toks;
+                }
+            }
+            Err(e) => {
+                o.err_pos = Some(match e.location {
+                    pest::error::InputLocation::Pos(p) => p,
+                    pest::error::InputLocation::Span((a, _)) => a,
+                });
+            }
+        }
+        o
+    })) {
+        Ok(o) => o,
+        Err(e) => PestObs { panicked: Some(panic_msg(e)), ..PestObs::default() },
+    }
+}
